@@ -1,4 +1,5 @@
 // unit: router -- halo-router contract (C11, C13, C14, C07, C12 router quotes)
+#![feature(pattern)]
 use vstd::prelude::*;
 use vstd::std_specs::ops::*;
 use vstd::std_specs::cmp::*;
